@@ -539,6 +539,10 @@ def specs_nonmarkov(tier):
                             m = menu if len(es) <= 3 else [0, 1, "inf"]
                             out.append(dict(fn="fast_nonMarkov_SIR", n=n, edges=es, I0=list(I0), R0=list(R0),
                                             tmin=tmin, tmax=tmax, menu=m, form=form, full=full))
+        if n == 3 and len(es) == 2:
+            for I0 in ([0], [1]):
+                out.append(dict(fn="fast_nonMarkov_SIR", n=n, edges=list(es) + [(1, 1), (0, 0)], I0=list(I0), R0=[], tmin=0, tmax="inf",
+                                menu=[0, 1, "inf"], form="sep", full=True))
         # queue order of simultaneous events: permuted node insertion and I0 order
         if 2 <= n <= 3 and es:
             for perm in itertools.permutations(range(n)):
